@@ -570,10 +570,10 @@ func r205and7(c *an.Ctx) {
 		})
 		c.Check(okAll && n >= 2, "R20.7", name+"|a trait is inserted only when it is absent", where, fmt.Sprintf("%d insertion sites", n),
 			"a new Trait element is created on a path where neither `index == len(has)` nor `has[index].Name != name` is established: adding a trait the child already has duplicates it, so the list is no longer a set")
-		// sort.Search predicate is >=
+		// sort.Search predicate is >= (the search may live in a helper the rules have not seen)
 		okSearch := false
-		for _, call := range an.CallsTo(fn, "sort.Search") {
-			if f := an.ClosureFn(call.Common().Args[1]); f != nil {
+		for _, sc := range searchCallsDeep(fn) {
+			if f := an.ClosureFn(sc.call.Common().Args[1]); f != nil {
 				for _, r := range an.Returns(f) {
 					if bo, ok := r.Results[0].(*ssa.BinOp); ok && bo.Op == token.GEQ {
 						okSearch = true
@@ -589,10 +589,28 @@ func r205and7(c *an.Ctx) {
 		if fn == nil {
 			continue
 		}
-		for _, call := range an.CallsTo(fn, "sort.Search") {
+		for _, sc := range searchCallsDeep(fn) {
+			call := sc.call
 			whole := false
 			if ln, ok := call.Common().Args[0].(*ssa.Call); ok && an.CalleeName(ln) == "builtin len" {
 				whole = true
+				if sc.via != nil {
+					// inside a helper: len(param), and the caller hands the list over whole (not a window of it)
+					whole = false
+					for _, src := range an.Sources(ln.Call.Args[0]) {
+						p, isP := src.(*ssa.Parameter)
+						if !isP {
+							continue
+						}
+						for pi, hp := range sc.in.Params {
+							if hp == p && pi < len(sc.via.Call.Args) {
+								if _, isSlice := sc.via.Call.Args[pi].(*ssa.Slice); !isSlice {
+									whole = true
+								}
+							}
+						}
+					}
+				}
 			}
 			direct := false
 			if f := an.ClosureFn(call.Common().Args[1]); f != nil && len(f.Params) == 1 {
@@ -635,6 +653,45 @@ func r206(c *an.Ctx) {
 func r208(c *an.Ctx) {
 	const rule = "R20.8"
 	// modepb relativeAdjustment: values[newI] with newI = rem(i+adj, len) adjusted by +len when negative
+	// wrapShape: idx is `r` or phi(r, L+r) with r = (...) % L and the sum chosen exactly under r < 0
+	wrapShape := func(idx ssa.Value, isLen func(ssa.Value) bool) (okMod, okNeg, found bool) {
+		idx = stripIntConv(idx)
+		phi, isPhi := idx.(*ssa.Phi)
+		var rem *ssa.BinOp
+		if isPhi {
+			for _, e := range phi.Edges {
+				if bo, ok := stripIntConv(e).(*ssa.BinOp); ok && bo.Op == token.REM {
+					rem = bo
+				}
+			}
+		} else if bo, ok := idx.(*ssa.BinOp); ok && bo.Op == token.REM {
+			rem = bo
+		}
+		if rem == nil {
+			return false, false, false
+		}
+		okMod = isLen(rem.Y)
+		if isPhi {
+			for i, e := range phi.Edges {
+				add, ok := stripIntConv(e).(*ssa.BinOp)
+				if !ok || add.Op != token.ADD {
+					continue
+				}
+				if !((isLen(add.X) && stripIntConv(add.Y) == ssa.Value(rem)) || (isLen(add.Y) && stripIntConv(add.X) == ssa.Value(rem))) {
+					continue
+				}
+				pred := phi.Block().Preds[i]
+				for _, g := range an.GuardingEdges(pred.Instrs[0]) {
+					if bo, ok := g.If.Cond.(*ssa.BinOp); ok && bo.Op == token.LSS && g.Branch && stripIntConv(bo.X) == ssa.Value(rem) {
+						if k, isC := an.ConstInt(bo.Y); isC && k == 0 {
+							okNeg = true
+						}
+					}
+				}
+			}
+		}
+		return okMod, okNeg, true
+	}
 	if top := mustFunc(c, rule, "pkg/trait/modepb", "ModelServer", "relativeAdjustment"); top != nil {
 		n := 0
 		for _, fn := range an.WithClosures(top) {
@@ -643,48 +700,40 @@ func r208(c *an.Ctx) {
 				if !ok {
 					return
 				}
-				idx := stripIntConv(ia.Index)
-				phi, isPhi := idx.(*ssa.Phi)
-				var rem *ssa.BinOp
-				if isPhi {
-					for _, e := range phi.Edges {
-						if bo, ok := stripIntConv(e).(*ssa.BinOp); ok && bo.Op == token.REM {
-							rem = bo
-						}
-					}
-				} else if bo, ok := idx.(*ssa.BinOp); ok && bo.Op == token.REM {
-					rem = bo
-				}
-				if rem == nil {
-					return
-				}
-				n++
-				cons := an.FuncName(top) + "|the wrapped value index is within [0, len)"
 				isLenOf := func(v ssa.Value) bool {
 					cl, ok := stripIntConv(v).(*ssa.Call)
 					return ok && an.CalleeName(cl) == "builtin len" && an.SameValue(cl.Call.Args[0], ia.X)
 				}
-				okMod := isLenOf(rem.Y)
-				okNeg := false
-				if isPhi {
-					for i, e := range phi.Edges {
-						add, ok := stripIntConv(e).(*ssa.BinOp)
-						if !ok || add.Op != token.ADD {
-							continue
-						}
-						if !((isLenOf(add.X) && stripIntConv(add.Y) == ssa.Value(rem)) || (isLenOf(add.Y) && stripIntConv(add.X) == ssa.Value(rem))) {
-							continue
-						}
-						pred := phi.Block().Preds[i]
-						for _, g := range an.GuardingEdges(pred.Instrs[0]) {
-							if bo, ok := g.If.Cond.(*ssa.BinOp); ok && bo.Op == token.LSS && g.Branch && stripIntConv(bo.X) == ssa.Value(rem) {
-								if k, isC := an.ConstInt(bo.Y); isC && k == 0 {
-									okNeg = true
+				okMod, okNeg, found := wrapShape(ia.Index, isLenOf)
+				if !found {
+					// the wrap-around may live in a helper the rules have not seen: index = helper(i, adjustment, len(values))
+					if call, isCall := stripIntConv(ia.Index).(*ssa.Call); isCall {
+						if h := call.Call.StaticCallee(); h != nil && len(h.Blocks) > 0 && h.Package() == fn.Package() && !an.KnownFunc(an.FuncQName(h)) {
+							for pi, p := range h.Params {
+								if pi >= len(call.Call.Args) || !isLenOf(call.Call.Args[pi]) {
+									continue
+								}
+								isP := func(v ssa.Value) bool { return stripIntConv(v) == ssa.Value(p) }
+								okAll, any := true, false
+								for _, r := range an.Returns(h) {
+									m, ng, f := wrapShape(r.Results[0], isP)
+									any = any || f
+									if !f || !m || !ng {
+										okAll = false
+									}
+								}
+								if any {
+									okMod, okNeg, found = okAll, okAll, true
 								}
 							}
 						}
 					}
 				}
+				if !found {
+					return
+				}
+				n++
+				cons := an.FuncName(top) + "|the wrapped value index is within [0, len)"
 				c.Check(okMod && okNeg, rule, cons, ia.Pos(), "", "the index into the mode's values is the remainder of (current + adjustment) by len(values) without adding len(values) back when the remainder is negative (Go's % keeps the sign): a relative step below zero indexes with a negative number and panics instead of wrapping around")
 			})
 		}
@@ -1037,4 +1086,32 @@ func r2010(c *an.Ctx) {
 				fmt.Sprintf("a message with %d of its %d fields set is written without update paths and without rebuilding the rest from the old value: the write replaces the whole stored message, so every field the operation did not mention (e.g. a meter's start_time when a reading is recorded, or a configured initial value) is cleared", len(fields), total))
 		})
 	}
+}
+
+type searchCall struct {
+	call ssa.CallInstruction
+	in   *ssa.Function // the function containing the call
+	via  *ssa.Call     // the call in the analysed function through which a helper is reached (nil = direct)
+}
+
+// searchCallsDeep lists the sort.Search calls of fn and of same-package helpers the rules have never seen.
+func searchCallsDeep(fn *ssa.Function) []searchCall {
+	var out []searchCall
+	for _, call := range an.CallsTo(fn, "sort.Search") {
+		out = append(out, searchCall{call: call, in: fn})
+	}
+	an.Instrs(fn, func(in ssa.Instruction) {
+		call, ok := in.(*ssa.Call)
+		if !ok {
+			return
+		}
+		h := call.Call.StaticCallee()
+		if h == nil || len(h.Blocks) == 0 || h.Package() != fn.Package() || an.KnownFunc(an.FuncQName(h)) {
+			return
+		}
+		for _, c2 := range an.CallsTo(h, "sort.Search") {
+			out = append(out, searchCall{call: c2, in: h, via: call})
+		}
+	})
+	return out
 }
